@@ -208,6 +208,9 @@ func (x *Exec) appendVals(s Slice, add []Value) Slice {
 	need := s.Len + len(add)
 	if s.A != nil && need <= s.Cap {
 		for i, v := range add {
+			// an in-place append writes the shared backing array: other slices over the
+			// same array see it if the position lies within their length
+			x.logElemWrite(s.A, s.Off+s.Len+i, s.A.E[s.Off+s.Len+i], v)
 			s.A.E[s.Off+s.Len+i] = v
 		}
 		return Slice{A: s.A, Off: s.Off, Len: need, Cap: s.Cap}
